@@ -10,6 +10,7 @@ package apply
 
 import (
 	"errors"
+	"fmt"
 	"maps"
 	"sort"
 	"strings"
@@ -497,7 +498,7 @@ func TestVerifC22(t *testing.T) {
 	}
 	cs := map[string]interface{}{}
 	for k, v := range codes {
-		cs["code_"+string(rune('a'+k/10))+string(rune('0'+k%10))] = v
+		cs[fmt.Sprintf("class_%02d", k)] = v
 	}
-	vStats(map[string]interface{}{"histories": n + 1, "op_kinds": ks, "result_classes(a0=ok)": cs})
+	vStats(map[string]interface{}{"histories": n + 1, "op_kinds": ks, "result_classes(00=ok)": cs})
 }
